@@ -254,6 +254,7 @@ def run_shard(shard):
     elif shard["kind"] == "empty-slice":
         _run_empty_slices(res)
         _run_root_in_collector(res)
+        _run_own_key_beside_merge_key(res)
     else:
         _run_hyp(shard, res, dl)
     return res
@@ -268,6 +269,57 @@ COLLECT_EXTRA = [
     ["M", [["a", ["M", [["a", ["S", 1, None]], ["b", ["S", 2, None]]], None]],
            ["b", ["L", [["S", 1, None], ["S", 2, None]], None]]], None],
 ]
+
+
+def _run_own_key_beside_merge_key(res):
+    """Deleting an OWN key of a Hash that also takes keys through a YAML
+    merge key (<<) removes exactly that key - whatever it is called, e.g.
+    like the anchor the merge key refers to.  (Keys that only arrive through
+    the merge key are not deleted here: documentation-silent, section 13.)"""
+    import json
+    from vp.model.plain import is_map
+    for anchor in ("foo", "b"):
+        for own in ("foo", "b", "bar", "x2"):
+            text = ("base: &%s\n  x: 1\nchild:\n  <<: *%s\n  %s: 2\n"
+                    "  keep: 3\nlast: 0\n" % (anchor, anchor, own))
+            for ptext in ("/child/%s" % own, "child.%s" % own):
+                doc, ok = gdocs.load(text)
+                if not ok:
+                    raise RuntimeError("merge-key text does not load")
+                before = canon(doc)
+                want = json.loads(json.dumps(before))
+                for pair in want[1]:
+                    if pair[0] == ["s", "child"]:
+                        pair[1][1] = [kv for kv in pair[1][1]
+                                      if kv[0] != ["s", own]]
+                res.evaluations += 1
+                case = {"doc": text, "text": ptext, "own-key-merge-key": True}
+                try:
+                    n = len(list(real.processor(doc).delete_nodes(
+                        real.ypath(ptext))))
+                except Exception as exc:
+                    etype, frame, src = exc_site(exc)
+                    res.fail({"clause": "no-crash", "exc": etype,
+                              "frame": frame, "shape": "own-key-merge-key"},
+                             case, "%s: %s" % (etype, exc))
+                    continue
+                views = [("memory", canon(doc))]
+                again, ok = gdocs.load(gdocs.dump(doc))
+                if ok:
+                    views.append(("reloaded", canon(again)))
+                bad = [(v, c) for v, c in views if c != want]
+                if n != 1 or bad:
+                    res.fail({"clause": "exactly-the-matched-nodes",
+                              "entry": "delete",
+                              "shape": "own-key-beside-merge-key",
+                              "named-like-anchor": own == anchor}, case,
+                             "matched %d; %s is %s, expected %s" % (
+                                 n, bad[0][0] if bad else "-",
+                                 json.dumps(bad[0][1]) if bad else "-",
+                                 json.dumps(want)))
+                    continue
+                res.nontrivial()
+                res.label("own-key-beside-merge-key")
 
 
 def _run_root_in_collector(res):
@@ -446,6 +498,9 @@ def _run_hyp(shard, res, dl):
 def replay(case):
     res = Result()
     entries = (case["entry"],) if "entry" in case else ("delete", "gather")
+    if case.get("own-key-merge-key"):
+        _run_own_key_beside_merge_key(res)
+        return [r for _, recs in res.failures.values() for r in recs]
     if case.get("root-in-collector"):
         _run_root_in_collector(res)
         return [r for _, recs in res.failures.values() for r in recs]
